@@ -1,4 +1,6 @@
 import Lemmas.FixedTextFloat
+import Lemmas.FixedTextCheckedAs
+import Lemmas.FixedTextLink
 import Generated.Facts
 /-! # C04 — fixed-point values print canonically and parse back to the identical value
 
@@ -192,8 +194,12 @@ theorem unquote_short (s : Str) (h : s.length ≤ 1) : unquote s = s := FixedTex
 
 /-! ## FromString never panics -/
 
-/-- the model is a total function on all byte strings (any places, any multiplier); every input yields an error, the
-    exponent branch, or a value inside the 64-bit range -/
+/-- every byte string (any places, any multiplier) yields an error, the exponent branch, or a value INSIDE the 64-bit
+    range — the informative part is `fits64 v`: no intermediate of the parse escapes the wrap-around arithmetic.  That
+    the model is total is true of any Lean definition and is not evidence about the Go code; the run-time "no input
+    makes it panic" assurance is the recover-guarded harness (every generated and corpus string is executed against the
+    real functions, a panic is the output `panic` and a mismatch), the totality of the model only says that the
+    transcription found no partial operation (no index, slice or division that could fail) in the modelled branch. -/
 theorem fromString_total64 (p : Nat) (m : Int) (s : Str) :
     fromStr64 p m s = .err ∨ fromStr64 p m s = .exp ∨ ∃ v, fromStr64 p m s = .ok v ∧ fits64 v = true :=
   fromStr64_total p m s
@@ -332,6 +338,86 @@ theorem checkedAs_int_iff128 (mult : Int) (t : Target) (raw n : Int) :
     constructor
     · intro e; cases e; exact ⟨rfl, h'⟩
     · rintro ⟨rfl, _⟩; rfl
+
+/-! ### what the criterion accepts, in closed form (the first statements about integer CheckedAs that are not the
+    definition unfolded) -/
+
+/-- **f64, signed targets** (int8/16/32/64/int), every configuration: CheckedAs succeeds with `n` ⇔ the value is the
+    whole number `n` (raw = n·mult) and `n` lies in `[−2^(w−1), 2^(w−1))` — no wrap-around coincidence of the
+    back-conversion `int64(n)·mult` can fake a success -/
+theorem checkedAs_signed_iff64 : ∀ c ∈ Facts.fixedConfigs, ∀ t ∈ signedTargets, ∀ raw n : Int, fits64 raw = true →
+    (checkedAs64 c.2 t raw = some n ↔ raw = n * c.2 ∧ inRange t n) := by
+  intro c hc t ht raw n hr
+  obtain ⟨hm, hm54⟩ := config_bounds c hc
+  exact checkedAs64_signed c.2 hm hm54 t ht raw n hr
+
+/-- **f64, uint8/uint16/uint32**: CheckedAs succeeds with `n` ⇔ raw = n·mult and `0 ≤ n < 2^w`; in particular every
+    negative value is rejected (uses one computed fact about the table, `narrow_table`) -/
+theorem checkedAs_narrow_unsigned_iff64 : ∀ c ∈ Facts.fixedConfigs, ∀ t ∈ narrowUnsignedTargets, ∀ raw n : Int,
+    fits64 raw = true → (checkedAs64 c.2 t raw = some n ↔ raw = n * c.2 ∧ inRange t n) :=
+  checkedAs64_narrow
+
+/-- **f64, uint64/uint/uintptr — what the code accepts today**: CheckedAs succeeds ⇔ the value is a whole number of
+    EITHER sign; the result is the integer part modulo 2^64, so −1 is "identified without loss" as 2^64−1 (`From`
+    converts back through `int64(n)`, which wraps).  Recorded in Appendix B as an observation. -/
+theorem checkedAs_u64_iff64 : ∀ c ∈ Facts.fixedConfigs, ∀ raw n : Int, fits64 raw = true →
+    (checkedAs64 c.2 ⟨64, false⟩ raw = some n ↔ raw.tmod c.2 = 0 ∧ n = (raw.tdiv c.2) % 2^64) := by
+  intro c hc raw n hr
+  obtain ⟨hm, hm54⟩ := config_bounds c hc
+  exact checkedAs64_u64 c.2 hm hm54 raw n hr
+
+/-- **f128, every integer target**: CheckedAs succeeds with `n` ⇔ raw = n·mult and `n` lies in the range of the target —
+    also for uint64 (f128 converts back through `uint64(n)`, no wrap) -/
+theorem checkedAs_all_iff128 : ∀ c ∈ Facts.fixedConfigs, ∀ t ∈ allTargets, ∀ raw n : Int, fits128 raw = true →
+    (checkedAs128 c.2 t raw = some n ↔ raw = n * c.2 ∧ inRange t n) := by
+  intro c hc t ht raw n hr
+  obtain ⟨hm, hm54⟩ := config_bounds c hc
+  exact checkedAs128_all c.2 hm hm54 t ht raw n hr
+
+/-- **the two types differ on uint64**: for a negative whole number (raw = q·mult, q < 0) f64 returns `q + 2^64`
+    while f128 reports ErrDoesNotFitInRequestedType — the reading "converting it back yields the original" is literal
+    in f64 and numerical in f128 -/
+theorem checkedAs_u64_f64_vs_f128 : ∀ c ∈ Facts.fixedConfigs, ∀ q : Int, q < 0 → fits64 (q * c.2) = true →
+    checkedAs64 c.2 ⟨64, false⟩ (q * c.2) = some (q + 2^64) ∧ checkedAs128 c.2 ⟨64, false⟩ (q * c.2) = none := by
+  intro c hc q hq hr
+  obtain ⟨hm, hm54⟩ := config_bounds c hc
+  have hdiv : (q * c.2).tdiv c.2 = q := Int.mul_tdiv_cancel _ (by omega)
+  have hmod : (q * c.2).tmod c.2 = 0 := Int.mul_tmod_left _ _
+  constructor
+  · rw [checkedAs64_u64 c.2 hm hm54 _ _ hr, hdiv]
+    refine ⟨hmod, ?_⟩
+    -- |q| ≤ 2^63, so q + 2^64 is the residue
+    have hq63 : -(2^63) ≤ q := by
+      simp only [fits64, Bool.and_eq_true, decide_eq_true_eq] at hr
+      have : q * c.2 ≤ q * 1 := Int.mul_le_mul_of_nonpos_left (by omega) (by omega)
+      omega
+    omega
+  · have hr128 : fits128 (q * c.2) = true := by
+      simp only [fits64, fits128, Bool.and_eq_true, decide_eq_true_eq] at hr ⊢
+      omega
+    cases h : checkedAs128 c.2 ⟨64, false⟩ (q * c.2) with
+    | none => rfl
+    | some n =>
+      have := (checkedAs128_all c.2 hm hm54 ⟨64, false⟩ (by simp [allTargets, signedTargets, narrowUnsignedTargets])
+        _ n hr128).mp h
+      obtain ⟨h1, h2⟩ := this
+      simp only [inRange, Bool.false_eq_true, if_false] at h2
+      have : n = q := Int.eq_of_mul_eq_mul_right (by omega) h1.symm
+      omega
+
+/-- the difference on concrete numbers: −1 in D1 (raw −10) -/
+example : checkedAs64 10 ⟨64, false⟩ (-10) = some 18446744073709551615 ∧ checkedAs128 10 ⟨64, false⟩ (-10) = none := by
+  decide
+
+/-! ### one model of integer `As`, not two -/
+
+/-- the integer `As` of this model and `Fixed.F64.asInt` / `Fixed.F128.asInt` of the C03 model are the same function on
+    every representable raw value (both are run against the code; this links the theorems of the two properties) -/
+theorem as_int_same_as_C03 : ∀ c ∈ Facts.fixedConfigs, ∀ (t : Target) (raw : Int),
+    (fits64 raw = true → as64 c.2 t raw = Fixed.F64.asInt ⟨t.bits, t.signed⟩ c.2 raw) ∧
+    (fits128 raw = true → as128 c.2 t raw = Fixed.F128.asInt ⟨t.bits, t.signed⟩ c.2 raw) := by
+  intro c hc t raw
+  exact ⟨fun h => as64_eq_C03 c.2 (config_bounds c hc).1 t raw h, fun h => as128_eq_C03 c hc t raw h⟩
 
 /-- As returns the same value whenever CheckedAs succeeds -/
 theorem as_eq_checkedAs64 (mult : Int) (t : Target) (raw n : Int) (h : checkedAs64 mult t raw = some n) :
